@@ -54,15 +54,9 @@ pub fn enc_state(o: &mut Out, s: &Screen) {
     }
 }
 
-pub fn fork(s: &Screen) -> Screen {
-    Screen {
-        savepoints: s.savepoints.iter().map(|p| Savepoint { cursor: p.cursor.clone(), g0_charset: p.g0_charset, g1_charset: p.g1_charset, charset: p.charset, origin: p.origin, wrap: p.wrap }).collect(),
-        columns: s.columns, lines: s.lines, dirty: s.dirty.clone(), margins: s.margins, buffer: s.buffer.clone(),
-        mode: s.mode.clone(), title: s.title.clone(), icon_name: s.icon_name.clone(), charset: s.charset,
-        g0_charset: s.g0_charset, g1_charset: s.g1_charset, tabstops: s.tabstops.clone(), cursor: s.cursor.clone(),
-        saved_columns: s.saved_columns,
-    }
-}
+/// A reached state is forked with the `Clone` derived under cfg(memterm_verif) (the hook in /repo), so that the harness keeps
+/// compiling — and keeps copying everything — when `Screen` gains a field.
+pub fn fork(s: &Screen) -> Screen { s.clone() }
 
 /// Operations of the public surface (same numbering as the driver's rd_op).
 #[derive(Clone, Debug, PartialEq)]
